@@ -29,7 +29,7 @@ import re
 from fractions import Fraction
 
 HERE = os.path.dirname(os.path.abspath(__file__))
-OUT = os.path.join(os.path.dirname(HERE), "lean", "Compass", "Gen", "Fns.lean")
+OUT = os.environ.get("GEN_FNS_OUT", os.path.join(os.path.dirname(HERE), "lean", "Compass", "Gen", "Fns.lean"))
 
 
 class NotRecognised(Exception):
@@ -245,16 +245,17 @@ class Parser:
                 name = self.ident()
                 if name == "await":
                     refuse("expression: await")
-                if self.peek() == "::":        # turbofish: the type arguments are parsed and dropped
+                tf = []
+                if self.peek() == "::":        # turbofish
                     self.next()
                     self.expect("<")
                     while True:
-                        self.ty()
+                        tf.append(self.ty())
                         if self.eat(">"):
                             break
                         self.expect(",")
                 if self.eat("("):
-                    e = ("mcall", e, name, self.args())
+                    e = ("mcall", e, name, self.args(), tf)
                 else:
                     e = ("field", e, name)
             elif self.peek() == "(":
@@ -571,6 +572,11 @@ LEAN_KEYWORDS = {"fun", "from", "end", "at", "open", "in", "then", "else", "if",
                  "section", "variable", "import", "Type", "Prop", "Sort", "this", "calc", "using", "deriving", "mutual",
                  "xs_", "rest_", "acc_", "self_"}
 
+# identifier newtypes over usize (`EdgeId(pub usize)`): Nat, compared only
+IDTYPES = {"EdgeId", "VertexId"}
+# structs that the model represents by one of their fields: a value of the struct *is* that field
+STRUCTS = {"Edge": dict(lean="Nat", field="edge_id", field_type="EdgeId")}
+
 CORE = "rust/routee-compass-core/src"
 PT = "rust/routee-compass-powertrain/src"
 
@@ -596,6 +602,11 @@ ENUMS = {
         "Factor": ("factor", ["factor"]),
         "Offset": ("offset", ["offset"]),
         "Combined": ("combined", ["0"])}),
+    "NetworkCostRate": dict(lean="NetworkCostRate", poly=True, imp="Compass.Model.Cost", file=CORE + "/model/cost/network/network_cost_rate.rs", variants={
+        "Zero": ("zero", []),
+        "EdgeLookup": ("edgeLookup", ["lookup"]),
+        "EdgeEdgeLookup": ("edgeEdgeLookup", ["lookup"]),
+        "Combined": ("combined", ["0"])}),
 }
 
 # functions, in the order of the generated file
@@ -611,6 +622,11 @@ FUNCS = [
     dict(file=CORE + "/model/cost/vehicle/vehicle_cost_rate.rs", impl="VehicleCostRate", fn="map_value"),
     dict(file=CORE + "/model/unit/cost.rs", impl="Cost", fn="enforce_strictly_positive"),
     dict(file=CORE + "/model/unit/cost.rs", impl="Cost", fn="enforce_non_negative"),
+    # the two state variables are not looked at by the code (they are only handed on to the members)
+    dict(file=CORE + "/model/cost/network/network_cost_rate.rs", impl="NetworkCostRate", fn="traversal_cost",
+         drop=["_prev_state_var", "_next_state_var"]),
+    dict(file=CORE + "/model/cost/network/network_cost_rate.rs", impl="NetworkCostRate", fn="access_cost",
+         drop=["_prev_state_var", "_next_state_var"]),
 ]
 
 
@@ -634,6 +650,11 @@ def dec_to_frac(lit):
 # ("List", t), ("Prod", [t…]), ("Enum", rust name), ("Opt", t)
 def is_uint(t):
     return isinstance(t, str) and t in UNSIGNED
+
+
+def is_key(t):
+    """types compared with `==` in a lookup: identifiers, unsigned integers, tuples of them"""
+    return (isinstance(t, str) and (t in IDTYPES or t in UNSIGNED)) or (t[0] == "Prod" and all(is_key(x) for x in t[1]))
 
 
 def is_sint(t):
@@ -672,13 +693,19 @@ class Ctx:
             return ("Prod", [self.conv_type(a) for a in args])
         if name == "Result" and len(args) == 2:
             return ("Opt", self.conv_type(args[0]))
+        if name in IDTYPES and not args:
+            return name
+        if name == "HashMap" and len(args) == 2:
+            return ("Map", self.conv_type(args[0]), self.conv_type(args[1]))
+        if name in STRUCTS and not args:
+            return ("Struct", name)
         if name in ENUMS and not args:
             self.enum_decl(name)
             return ("Enum", name)
         refuse(f"type {name} is outside the subset")
 
     def lean_type(self, t):
-        if is_uint(t) or t == "Duration":
+        if is_uint(t) or t == "Duration" or (isinstance(t, str) and t in IDTYPES):
             return "Nat"
         if is_sint(t):
             return "Int"
@@ -689,6 +716,10 @@ class Ctx:
             return t
         if t[0] == "List":
             return f"(List {self.lean_type(t[1])})"
+        if t[0] == "Map":
+            return f"(List ({self.lean_type(t[1])} × {self.lean_type(t[2])}))"
+        if t[0] == "Struct":
+            return STRUCTS[t[1]]["lean"]
         if t[0] == "Prod":
             return "(" + " × ".join(self.lean_type(x) for x in t[1]) + ")"
         if t[0] == "Opt":
@@ -809,7 +840,12 @@ class Ctx:
             x, t = self.tr(e[1], env)
             if t == "Num" and e[2] == "0":
                 return x, t
+            if t[0] == "Struct" and e[2] == STRUCTS[t[1]]["field"]:
+                return x, STRUCTS[t[1]]["field_type"]
             refuse(f"field .{e[2]} of {t}")
+        if k == "tuple" and len(e[1]) >= 2:
+            xs = [self.tr(a, env) for a in e[1]]
+            return "(" + ", ".join(x for x, _ in xs) + ")", ("Prod", [t for _, t in xs])
         if k == "call":
             return self.tr_call(e, env)
         if k == "mcall":
@@ -1005,6 +1041,24 @@ class Ctx:
             if t != ("Enum", self.impl):
                 refuse(f"call of {name} on {t}")
             return self.self_call(r, args, env)
+        # map.get(&key).unwrap_or(&default): the HashMap is an association list with unique keys
+        if name == "unwrap_or" and len(args) == 1 and recv[0] == "mcall" and recv[2] == "get" and len(recv[3]) == 1:
+            m, tm = self.tr(recv[1], env)
+            if tm[0] != "Map":
+                refuse(f".get() on {tm}")
+            key, tk = self.tr(recv[3][0], env)
+            if tk != tm[1] or not is_key(tk):
+                refuse(f"lookup key of type {tk} in a map over {tm[1]}")
+            d, td = self.tr(args[0], env)
+            self.unify(td, tm[2], "unwrap_or")
+            return f"(match List.find? (fun p_ => p_.1 == {key}) {m} with | some p_ => p_.2 | none => {d})", tm[2]
+        # xs.iter().map(|x| body).collect::<Result<Vec<T>, E>>()
+        if (name == "collect" and not args and recv[0] == "mcall" and recv[2] == "map" and len(recv[3]) == 1
+                and recv[1][0] == "mcall" and recv[1][2] == "iter" and not recv[1][3]):
+            tf = e[4]
+            if not (len(tf) == 1 and tf[0][0] == "Result" and len(tf[0][1]) == 2 and tf[0][1][0][0] == "Vec"):
+                refuse("collect: only into Result<Vec<_>, _>")
+            return self.tr_collect(recv[1][1], recv[3][0], self.conv_type(tf[0][1][0][1][0]), env)
         r, t = self.tr(recv, env)
         if name in ("clone", "to_owned") and not args:
             return r, t
@@ -1038,6 +1092,37 @@ class Ctx:
         if p[0] == "tuple" and t[0] == "Prod" and len(p[1]) == len(t[1]):
             return "(" + ", ".join(self.bind_pat(q, u, env) for q, u in zip(p[1], t[1])) + ")"
         refuse(f"pattern {p[0]} over {t}")
+
+    def tr_collect(self, xs_e, clo, telem, env):
+        xs, txs = self.tr(xs_e, env)
+        if txs[0] != "List" or clo[0] != "closure" or len(clo[1]) != 1:
+            refuse("collect: shape")
+        env2 = dict(env)
+        item = self.bind_pat(clo[1][0], txs[1], env2)
+        bound = set()
+        pat_names(clo[1][0], bound)
+        rc = self.recursive_calls
+        b, tb = self.no_guards(lambda: self.tr(clo[2], env2), "a closure")
+        recursive = self.recursive_calls != rc
+        if tb != ("Opt", telem):
+            refuse(f"collect: closure of type {tb}, elements {telem}")
+        used = set()
+        free_names(clo[2], used)
+        caps = [n for n in env if n in used and n not in bound]
+        for n in list(bound) + caps:
+            if self.name(n) in ("xs_", "rest_", "y_", "ys_"):
+                refuse("name clash with the collect's own names")
+        aux = f"{self.lean_name}_collect{len(self.aux) + 1}"
+        sig = "".join(f" ({self.name(n)} : {self.lean_type(env[n])})" for n in caps)
+        capargs = "".join(" " + self.name(n) for n in caps)
+        lt, le = self.lean_type(txs[1]), self.lean_type(telem)
+        text = (f"def {aux}{sig} (xs_ : List {lt}) : Option (List {le}) :=\n"
+                f"  match xs_ with\n  | [] => some []\n"
+                f"  | {item} :: rest_ =>\n    match {b} with\n    | none => none\n"
+                f"    | some y_ =>\n      match {aux}{capargs} rest_ with\n      | none => none\n"
+                f"      | some ys_ => some (y_ :: ys_)\n")
+        self.aux.append((aux, text, recursive))
+        return f"({aux}{capargs} {xs})", ("Opt", ("List", telem))
 
     def tr_fold(self, xs_e, kind, args, env):
         xs, txs = self.tr(xs_e, env)
